@@ -314,9 +314,13 @@ func (o *Obl) discharge(timeoutS int) {
 	var total time.Duration
 	var details []string
 	sps := solvers
-	if o.Kind == "rel" && !o.Canary {
+	if (o.Kind == "rel" || o.Retried) && !o.Canary {
+		rs := relSolvers
+		if o.Kind != "rel" {
+			rs = solvers // second chance of a unary goal: the three solvers side by side instead of in turn
+		}
 		// relational goals: race the three configurations, first definitive answer wins
-		res, name, d := raceSolvers(relSolvers, q, timeoutS)
+		res, name, d := raceSolvers(rs, q, timeoutS)
 		o.TimeMS = int(d / time.Millisecond)
 		o.Solver = name
 		switch res {
@@ -327,7 +331,7 @@ func (o *Obl) discharge(timeoutS int) {
 			o.Detail = "sat"
 		default:
 			o.Status = "unknown"
-			o.Detail = "cvc5, z3-new/eager, z3-new: no answer within the limit"
+			o.Detail = "no solver of the portfolio answered within the limit"
 		}
 		return
 	}
